@@ -37,6 +37,9 @@ TProg == /\ Ev("prog") /\ phase = "idle"
             /\ m' = m0
             \* undefined behaviour in a constant initialiser: trivial from the start
             /\ (m0.status # "run" => PrintT(<<"TRIVIAL", ToJson([line |-> l, why |-> m0.status, detail |-> m0.why])>>))
+            \* every array type `[NAME]T` of the logged program has as many elements as the machine computes for NAME
+            /\ IF m0.status = "run" /\ ~NamedLengthsOK(Rec[l].p, m0.glob)
+               THEN PrintT(<<"NAMEDLENGTH", ToJson([line |-> l])>>) /\ FALSE ELSE TRUE
          /\ pi' = l /\ phase' = "run" /\ l' = l + 1
 
 TEvent ==
